@@ -40,6 +40,8 @@ def oracle(case: dict) -> Outcome:
     n, dt = case["n"], {"f32": torch.float32, "f64": torch.float64}[case["dtype"]]
     u = float(torch.finfo(dt).eps) / 2
     A, lam, V = matgen.make_matrix(n, case["recipe"], dt)
+    if case.get("layout") == "col" and n > 1:
+        A = A.t().contiguous().t()  # same symmetric matrix, column-major memory layout (what .T / linalg.inv / cholesky_inverse hand back)
     scale = float(A.to(D).abs().max()) or case["recipe"].get("scale", 1.0)
     eps = max(case["eps_rel"], 16 * u) * scale
     rootf = matgen.root_fraction(case["root"])
@@ -139,7 +141,7 @@ def _strategy(nmax: int):
         recipe = draw(matgen.st_recipe(max_logk=4.0 if dtype == "f32" else 9.0, allow_neg=True, allow_zero=True))
         return {"n": (draw(st.one_of(st.integers(2, min(10, nmax)), st.integers(1, nmax))) if nmax <= 24 else draw(st.one_of(st.integers(25, nmax), st.sampled_from([32, 33, 64])))), "dtype": dtype, "recipe": recipe,
                 "eps_rel": draw(st.one_of(st.floats(-8, 0).map(lambda e: 10.0**e), st.sampled_from([1e-6, 1e-3, 1.0]))),
-                "root": draw(matgen.st_root()), "stab": draw(st.booleans()), "qseed": draw(st.integers(0, 10**6))}
+                "root": draw(matgen.st_root()), "stab": draw(st.booleans()), "qseed": draw(st.integers(0, 10**6)), "layout": draw(st.sampled_from(["row", "row", "col"]))}
 
     return case()
 
